@@ -153,10 +153,19 @@ class E:
         if isinstance(idx, tuple) and len(idx) == 2 and idx[0] == slice(None) and idx[1] is None:
             from shim import Col
             return Col(self)
+        if isinstance(idx, tuple) and len(idx) == 2 and idx[0] is None and idx[1] == slice(None):
+            return self          # a row vector broadcasts against a matrix exactly as the 1-D array does
+        if isinstance(idx, slice):
+            from shim import Opaque
+            return Opaque('slice')       # part of an array: only meaningful inside a hand-modelled hole (see shim.Opaque)
         raise TraceAbort('unsupported index %r on array expression' % (idx,))
 
     def __setitem__(self, idx, val):
         # `sigma = np.copy(x); sigma[0] = v`: in-place update of a fresh copy node
+        if isinstance(idx, slice) and type(val).__name__ == 'Opaque' and getattr(val, 'what', '') in ('cumsum', 'concatenate', 'derived'):
+            # `x[1:] = np.cumsum(...)`: the array becomes the result of a library loop - a hole, named by whoever holds it
+            self.op, self.args, self.zero_array = 'sym', ('__hole__',), False
+            return
         if self.op != 'copy' or not (isinstance(idx, int) and not isinstance(idx, bool)):
             raise TraceAbort('in-place element assignment on %r[%r]' % (self.op, idx))
         old = E(self.op, self.args)
